@@ -25,7 +25,7 @@ RULE = ('scenarios x exhaustive fault points.  Scenario = initial state of the t
         'non-numeric value, missing HMF keys, missing EIGENOBJ table, unreadable file).  For each scenario a clean run records the N '
         'collaborator calls (environment reads, file open, scoring, writing, closing / metadata file, Julian date, path tests, pickle, readspec, '
         'skymask, wavevector, preprocess_spectra, solvers, median, interpolation, plotting, FITS writing, remove); then call k raises, for all k in '
-        '1..N and each of OSError, KeyError, ValueError, RuntimeError, the package exception.  Oracle after every run: dict(os.environ) equals '
+        '1..N and each of OSError, KeyError, ValueError, RuntimeError, the package exception and a BaseException subclass (an interrupt arriving inside a stage).  Oracle after every run: dict(os.environ) equals '
         'the snapshot taken before the call.  An evaluation = one (scenario, k, exception) execution; non-trivial = the fault is injected '
         'after the point where the variable was modified; distinct = distinct (scenario hash, k, exception).')
 ASSUMPTIONS = ['failure points are enumerated at collaborator-call granularity (not between arbitrary bytecodes); the restoring assignment itself is not a fault target',
@@ -33,7 +33,12 @@ ASSUMPTIONS = ['failure points are enumerated at collaborator-call granularity (
                'get_juldate and the astropy FITS object construction run for real',
                'environment writes go to the real os.environ; reads are counted through a proxy']
 
-EXC = ['OSError', 'KeyError', 'ValueError', 'RuntimeError', 'package']
+EXC = ['OSError', 'KeyError', 'ValueError', 'RuntimeError', 'package', 'abort']
+
+
+class Abort(BaseException):
+    """stands for KeyboardInterrupt / SystemExit arriving inside a stage: not an Exception subclass"""
+
 
 
 class Injected(object):
@@ -50,7 +55,7 @@ class Injected(object):
         if self.mod_at is None and self.snapshot is not None and dict(os.environ) != self.snapshot:
             self.mod_at = len(self.calls)
         if self.k is not None and len(self.calls) == self.k:
-            cls = dict(OSError=OSError, KeyError=KeyError, ValueError=ValueError, RuntimeError=RuntimeError, package=self.pkgexc)[self.exc]
+            cls = dict(OSError=OSError, KeyError=KeyError, ValueError=ValueError, RuntimeError=RuntimeError, package=self.pkgexc, abort=Abort)[self.exc]
             raise cls('injected fault at call %d (%s)' % (self.k, name))
 
     def wrap(self, name, fn):
@@ -217,7 +222,7 @@ def window_body(case):
                 try:
                     W.window_score(rescore=case['rescore'])
                     return 'ok'
-                except Exception as e:  # noqa -- any failure is fine, only the environment matters
+                except (Exception, Abort) as e:  # noqa -- any failure is fine, only the environment matters
                     return '%s: %s' % (type(e).__name__, str(e)[:60])
         status, n, nf, nnt = enumerate_faults(runner, inj, dict(case), ('PHOTO_CALIB',), state)
     note_label('clean:' + status.split(':')[0])
@@ -385,7 +390,7 @@ def template_body(case):
                         finally:
                             os.chdir(cwd)
                         return 'ok'
-                    except Exception as e:  # noqa
+                    except (Exception, Abort) as e:  # noqa
                         return '%s: %s' % (type(e).__name__, str(e)[:60])
             finally:
                 del M.open
@@ -429,11 +434,11 @@ def nontrivial(case, labels):
 
 SUBCHECKS = [
     SubCheck('window_score_grid', window_body, kind='exhaustive', cases=window_grid, classify=window_classify, nontrivial=nontrivial, shards=(4, 8), floor=0.0,
-             doc='all 24 combinations of PHOTO_CALIB/PHOTO_RESOLVE set-unset x rescore x FLIST state; every fault point x 5 exception classes'),
+             doc='all 24 combinations of PHOTO_CALIB/PHOTO_RESOLVE set-unset x rescore x FLIST state; every fault point x 6 exception classes'),
     SubCheck('window_score_generated', window_body, strategy=window_case, classify=window_classify, nontrivial=nontrivial, quick=300, thorough=4000, shards=(8, 16), floor=0.0,
              doc='generated scenarios with unrelated environment variables and odd values'),
     SubCheck('template_input_grid', template_body, kind='exhaustive', cases=template_grid, classify=template_classify, nontrivial=nontrivial, shards=(16, 16), floor=0.0,
-             doc='RUN2D/RUN1D set-unset x object/method x parameter-file variants; every fault point x 5 exception classes'),
+             doc='RUN2D/RUN1D set-unset x object/method x parameter-file variants; every fault point x 6 exception classes'),
     SubCheck('template_input_generated', template_body, strategy=template_case, classify=template_classify, nontrivial=nontrivial, quick=160, thorough=2400, shards=(16, 16), floor=0.0,
              doc='generated scenarios: unrelated variables, malformed parameter files, plots, existing dump file'),
 ]
